@@ -12,7 +12,11 @@
        file's writer is closed, so all wounds of file i are sent before file i+1 is opened);
     H  `ArchiveHealer.Do`: `for wound := range wounds { processWound(wound) }` — receives in channel order;
        a DIR / SYMLINK wound is healed at once in this goroutine, the first FILE wound of a file puts the file
-       index into `fileIndices` (buffered with `len(container.Files)`: the send never blocks);
+       index into `fileIndices` (buffered with `len(container.Files)`: the send never blocks — also not with the
+       synthetic FILE wounds of `healBelow`, since an index is sent at most once);
+       since the repair of finding F15 a DIR wound that finds something else standing at the directory's path
+       also runs `healBelow`: synthetic DIR, SYMLINK and FILE wounds for every entry of the container below it,
+       processed recursively IN this goroutine (they never enter the channel) — `Wharf.Heal.healDir`;
     G  the healing goroutine `heal`: takes file indices in order, `healOne` rewrites the whole file.
 
   State: the current tree, V's position (three counters: the next directory / symlink / file entry), the FIFO
@@ -29,10 +33,16 @@
       inspect: a directory heal removes a regular file at `d` and creates `d` (entries below `d` are "not there"
       before, in between and after — ENOTDIR or ENOENT, which no verdict tells apart); a symlink or file heal only
       touches its own path and what lies below it, where nothing signed lives (`MkdirAll(parent)` is a no-op then,
-      every signed directory being in place, `Proofs/HealTS: Inv.allDirs_sym / allDirs_queue`).  Two exceptions:
+      the parent directory being in place, `Proofs/HealTS: Inv.allDirs_head / Inv.queueReady`).
+      `healBelow(d)` — after the thing standing at `d` (a regular file, or a symlink: F15) has been replaced by an
+      empty directory — is a long sequence of calls, all of them below `d`; what the validator may see of it
+      half-way is, for every entry below `d`, either "not there yet" (a wound — harmless when it arrives later:
+      the entry is healed anyway, and a wound for an entry that is in place is a no-op or a re-creation) or "in
+      place" (and it stays in place); see Props/C06Sched.lean, header.  Exceptions:
       the file that is being rewritten while the validator reads that very file — the racy verdict of `vFile`, see
-      `admissible` — and a multi-level `MkdirAll` observed half-way, which can only happen when directories are
-      not listed parents-first — `vDirLate`.
+      `admissible`; a multi-level `MkdirAll` observed half-way, which can only happen when directories are
+      not listed parents-first, or a directory below `d` observed missing while `healBelow(d)` runs — `vDirLate`;
+      a symlink below `d` observed missing while `healBelow(d)` runs — `vSymlinkLate`.
 
   Failures are dead ends here: once the validator stops with an error or a heal call fails, the run is over
   (`step` returns `none`; the failing step changes nothing but the status, i.e. the tree of a failed state is
@@ -88,15 +98,23 @@ def passFold {α : Type} (f : Nat → α → Outcome (List Wound)) : Nat → Lis
 
     Why this covers every behaviour of the real code.  The step `vFile ws` stands for the whole of `doOne(i)` and
     is placed at the moment its FIRST real wound is sent (at its return, if there is none).
-    (1) Until then nothing changes what `doOne(i)` sees: the only step that changes the node at the path of file
-        `i` is G rewriting file `i` (`Proofs/HealTS: Untouched`, `Props/C06Sched: verdict_on_untouched_entry` —
-        directory and symlink heals, and rewrites of other files, leave `tree.get p_i` alone, and under the
-        invariant the verdict depends on `tree.get p_i` only, `fileEntry_eq_of_get`), and G rewrites file `i` only
-        after H has RECEIVED a real file wound with index
-        `i`, which only `doOne(i)` sends (`Proofs/HealTS: Inv.queueLt` — every queued index is below the validator's
-        file position).  So up to its first real wound `doOne(i)` reads a file that is constant and equal to the
-        one in the current tree: if it never sends a real wound, what it sends is `exact`; if it does, `exact`
-        has a real wound too (the verdict on a constant file is `exact`).
+    (1) Until then nothing changes what `doOne(i)` sees, as long as no signed directory above the file is a
+        symlink: the only step that changes the node at the path of file `i` is G rewriting file `i`
+        (`Proofs/HealTS: Untouched`, `Props/C06Sched: verdict_on_untouched_entry` — directory and symlink heals,
+        `healBelow` included, and rewrites of other files, leave `tree.get p_i` alone, and without a link on the
+        way the verdict depends on `tree.get p_i` only, `fileEntry_eq_of_get`), and G rewrites file `i` only after
+        H has queued `i`: on RECEIVING a real file wound with index `i`, which only `doOne(i)` sends — or, since
+        the repair of F15, in `healBelow(d)` for a directory `d` above the file, at which moment the file is
+        MISSING (something else stood at `d`) and stays missing until G rewrites it.  So up to its first real wound
+        `doOne(i)` reads a file that is constant and equal to the one in the current tree — or it finds the file
+        missing / half-written by G, which is a real wound, and `exact` on the tree before G's rewrite (file
+        missing) has a real wound too: if `doOne(i)` never sends a real wound, what it sends is `exact` (placed
+        at the moment it opened the file); if it does, `exact` has a real wound too.
+        Below a signed directory that IS a symlink (F15) the file is read THROUGH the link, `exact` is the verdict
+        through the link on the current tree, and what the real validator sends may differ from it if the link
+        is replaced, or the file behind it rewritten, under its feet.  The restoration theorems do not depend on
+        it: for such an entry ANY verdict is as good as any other (`Proofs/HealTS: Inv.files`, fourth disjunct
+        `Linked`), because `healBelow` heals the entry again after the link has been replaced.
     (2) After the first real wound the file may be rewritten under the validator's feet (H queues `i`, G
         truncates and rewrites the file while `io.Copy` is still reading it): the remaining block verdicts, the
         aggregation and the size-mismatch wound are unpredictable — any mixture of `.file` wounds and healthy
@@ -106,12 +124,13 @@ def passFold {α : Type} (f : Nat → α → Outcome (List Wound)) : Nat → Lis
         behind the first wound and ahead of everything sent for file `i+1`; healthy markers sent BEFORE the first
         real wound are received later in the model than in reality, which is harmless for the same reason.
 
-    A file that is already queued or rewritten when the validator reaches it does not occur: only `vFile` for
-    entry `i` sends wounds with index `i` (`Inv.queueLt`), so that case of the relation is empty — the relation
-    is nevertheless generous: whenever the current tree shows a real wound, all-`.file`/`.closedFile` lists with a
-    real wound are allowed, whatever the queue holds.  An all-healthy list for a file that shows a real wound
-    on the current tree is NOT allowed, and rightly so: the first real wound is found before anyone can have
-    repaired the file. -/
+    A file that is already queued or rewritten when the validator reaches it DOES occur since the repair of F15
+    (`healBelow` queues every file below a replaced directory, `Props/C06Sched: queued_before_inspected`): queued
+    and not yet rewritten, the file is missing and every list with a real wound is allowed (the wounds are ignored
+    by H, `files[i]` being set); rewritten, the file is as signed and the verdict is `exact`, all healthy.
+    Whenever the current tree shows a real wound, all-`.file`/`.closedFile` lists with a real wound are allowed,
+    whatever the queue holds.  An all-healthy list for a file that shows a real wound on the current tree is NOT
+    allowed, and rightly so: the first real wound is found before anyone can have repaired the file. -/
 def admissible (i : Nat) (exact ws : List Wound) : Bool :=
   if (realWounds exact).isEmpty then decide (ws = exact)
   else ws.all (fun w => decide (w.index = i ∧ (w.kind = .file ∨ w.kind = .closedFile))) &&
@@ -142,6 +161,7 @@ inductive Label where
   | vDir                        -- V inspects the next directory entry
   | vDirLate                    -- V inspects the next directory entry in the middle of a `MkdirAll` of H
   | vSymlink                    -- V inspects the next symlink entry
+  | vSymlinkLate                -- V inspects the next symlink entry in the middle of a `healBelow` of H
   | vFile (ws : List Wound)     -- V validates the next file entry, sending `ws`
   | vDone                       -- V: worker done, `close(vctx.Wounds)`
   | hWound                      -- H receives the oldest wound and processes it
@@ -163,7 +183,8 @@ def stepVDir (s : Signed) (σ : State) : Option State :=
     already created it.  Over-approximation: the validator may report ANY directory entry as wounded; a
     directory wound for an existing directory is a no-op for the healer (`healDir`: "found existing dir, all
     good").  With parents-first listing this step adds nothing real (every ancestor is in place before a
-    directory wound is handled, `Proofs/HealTS: Inv.parent_ready`). -/
+    directory wound is handled, `Proofs/HealTS: Inv.parent_ready`).  The same over-approximation covers a
+    directory below a replaced directory `d` inspected while `healBelow(d)` is creating it. -/
 def stepVDirLate (s : Signed) (σ : State) : Option State :=
   match s.dirs[σ.dirPos]? with
   | none => none
@@ -178,6 +199,19 @@ def stepVSymlink (s : Signed) (σ : State) : Option State :=
       match symlinkEntry σ.tree σ.symPos p dest with
       | .ok w => some { σ with symPos := σ.symPos + 1, chan := σ.chan ++ w }
       | _ => some { σ with status := .validatorError }
+  else none
+
+/-- The other place where a heal call is not atomic for the validator (since the repair of F15): `healBelow(d)`
+    recreates the symlinks below a replaced directory `d` one by one, after `d` itself and the directories below
+    it.  A symlink entry below `d` inspected in between is seen missing, although before the (atomic) `healDir`
+    step of the model it may look healthy THROUGH the link that stood at `d`, and after it it is in place.
+    Over-approximation, as for `vDirLate`: the validator may report ANY symlink entry as wounded; a symlink wound
+    for a symlink that is in place makes the healer remove and re-create it. -/
+def stepVSymlinkLate (s : Signed) (σ : State) : Option State :=
+  if s.dirs.length ≤ σ.dirPos then
+    match s.symlinks[σ.symPos]? with
+    | none => none
+    | some _ => some { σ with symPos := σ.symPos + 1, chan := σ.chan ++ [⟨.symlink, σ.symPos, 0, 0⟩] }
   else none
 
 /-- `doOne(fileIndex)`: all wounds and healthy markers of the file, see `admissible`; only after the directory
@@ -198,17 +232,19 @@ def stepVDone (s : Signed) (σ : State) : Option State :=
     some { σ with closed := true }
   else none
 
-/-- `for wound := range wounds { processWound(wound) }`, one iteration, on the CURRENT tree. -/
+/-- `for wound := range wounds { processWound(wound) }`, one iteration, on the CURRENT tree.  A directory wound may
+    change the queue as well as the tree (`healBelow`, archive_healer.go:99-126, called at 161-169). -/
 def stepHWound (s : Signed) (σ : State) : Option State :=
   match σ.chan with
   | [] => none
   | w :: rest =>
     match w.kind with
-    | .dir =>                        -- case WoundKind_DIR: Lstat, Remove, MkdirAll
+    | .dir =>                        -- case WoundKind_DIR: Lstat, Remove, MkdirAll, and (if something was removed)
+                                     -- healBelow: synthetic DIR / SYMLINK / FILE wounds for everything below
       match s.dirs[w.index]? with
       | some p =>
-        match healDir σ.tree p with
-        | .ok t' => some { σ with chan := rest, tree := t' }
+        match healDir s (healDepth s) σ.tree σ.queue p with
+        | .ok (t', q') => some { σ with chan := rest, tree := t', queue := q' }
         | .error _ => some { σ with status := .healerError }
       | none => some { σ with status := .healerError }
     | .symlink =>                    -- case WoundKind_SYMLINK: MkdirAll(dir), Lstat, Remove(All), Symlink
@@ -219,7 +255,7 @@ def stepHWound (s : Signed) (σ : State) : Option State :=
         | .error _ => some { σ with status := .healerError }
       | none => some { σ with status := .healerError }
     | .file =>                       -- case WoundKind_FILE: `if files[wound.Index] { return nil }` … `fileIndices <- wound.Index`
-      some { σ with chan := rest, queue := if σ.queue.contains w.index then σ.queue else σ.queue ++ [w.index] }
+      some { σ with chan := rest, queue := enqueue σ.queue w.index }
     | .closedFile =>                 -- case WoundKind_CLOSED_FILE: progress accounting only
       some { σ with chan := rest }
 
@@ -241,6 +277,7 @@ def step (bs maxSize : Nat) (s : Signed) (σ : State) (l : Label) : Option State
   | .vDir => stepVDir s σ
   | .vDirLate => stepVDirLate s σ
   | .vSymlink => stepVSymlink s σ
+  | .vSymlinkLate => stepVSymlinkLate s σ
   | .vFile ws => stepVFile bs maxSize s σ ws
   | .vDone => stepVDone s σ
   | .hWound => stepHWound s σ
@@ -266,10 +303,12 @@ def run (bs maxSize : Nat) (s : Signed) : State → List Label → Option State
     | some σ' => run bs maxSize s σ' ls
     | none => none
 
-/-- Termination measure (lexicographic): what V still has to do, then what H and G still have to do. -/
+/-- Termination measure (lexicographic): what V still has to do, then what H and G still have to do.  Receiving
+    one wound may queue up to `s.files.length` files (`healBelow`), or one file whose index is arbitrary in an
+    arbitrary state — hence the weight `s.files.length + 2` of a wound in the channel. -/
 def measure (s : Signed) (σ : State) : Nat × Nat :=
   ((s.dirs.length - σ.dirPos) + (s.symlinks.length - σ.symPos) + (s.files.length - σ.filePos) +
      (if σ.closed then 0 else 1) + (if σ.status = .running then 1 else 0),
-   2 * σ.chan.length + (σ.queue.length - σ.healed))
+   (s.files.length + 2) * σ.chan.length + (σ.queue.length - σ.healed))
 
 end Wharf.HealTS
